@@ -3,14 +3,15 @@
 import json, os, sys
 HERE = os.path.dirname(os.path.dirname(os.path.abspath(__file__)))
 sys.path.insert(0, HERE)
-from vf.registry import REG, NOT_YET, NOT_APPLICABLE  # noqa
+from vf.registry import NOT_YET, NOT_APPLICABLE  # noqa
 
 props = [json.loads(l) for l in open(os.path.join(HERE, "properties.jsonl"))]
 checks, na = [], []
 for p in props:
     pid = p["id"]
-    r = REG.get(pid)
-    if r and os.path.exists(os.path.join(HERE, "checks", pid.lower() + ".py")):
+    mp = os.path.join(HERE, "checks", pid.lower() + ".meta.json")
+    r = json.load(open(mp)) if os.path.exists(mp) else None
+    if r and pid not in NOT_APPLICABLE and os.path.exists(os.path.join(HERE, "checks", pid.lower() + ".py")):
         checks.append({
             "property_id": pid,
             "quick_cmd": f"./check {pid} --tier quick",
